@@ -3,7 +3,38 @@ import CvDriver.Base
 namespace Drv
 open Cv
 
+/-- an extended-Lagrangian variable with one harmonic bias acting on its extended coordinate (C17 scenarios) -/
+structure ExtObj where
+  name : String
+  atom : Nat
+  p : ExtParams Float
+  s : ExtState Float
+  kb : Float            -- harmonic bias on the extended coordinate: force constant (0 = none)
+  cb : Float
+  kw : Float := 0.0     -- harmonicWalls (bypasses the extended coordinate): force constant (0 = none)
+  uw : Float := 0.0     -- upper wall
+  xrep : Float := 0.0   -- value reported at the last step
+  vrep : Float := 0.0
+  ebias : Float := 0.0
+
+/-- the engine simulator's Gaussian source: SplitMix64 + Box-Muller (harness/proxy_verif.cpp) -/
+def splitmix (s : UInt64) : UInt64 × UInt64 :=
+  let s' := s + 0x9E3779B97F4A7C15
+  let z := s'
+  let z := (z ^^^ (z >>> 30)) * 0xBF58476D1CE4E5B9
+  let z := (z ^^^ (z >>> 27)) * 0x94D049BB133111EB
+  (s', z ^^^ (z >>> 31))
+
+def randGaussian (s : UInt64) : UInt64 × Float :=
+  let (s1, a) := splitmix s
+  let (s2, b) := splitmix s1
+  let u1 := (Float.ofNat (a >>> 11).toNat + 1.0) / 9007199254740993.0
+  let u2 := Float.ofNat (b >>> 11).toNat / 9007199254740992.0
+  (s2, Float.sqrt (-2.0 * Float.log u1) * Float.cos (2.0 * 3.14159265358979323846 * u2))
+
 structure ModSt where
+  exts : List ExtObj := []
+  rng : UInt64 := 0x9E3779B97F4A7C15
   m : Sys Float := {}
   names : List String := []            -- variable names, same order as `m.cvs`
   posz : List (Nat × Float) := []
@@ -12,6 +43,7 @@ structure ModSt where
   modelled : Bool := false             -- at least one `M.` object: the model speaks for the whole module
   clockKnown : Bool := true            -- false after loading a state the model does not interpret
   saved : List (String × Sys Float) := []   -- states saved under a prefix (survive `m.new`)
+  savedExt : List (String × List ExtObj) := []
 
 def setAssoc {β} (l : List (Nat × β)) (k : Nat) (v : β) : List (Nat × β) :=
   (k, v) :: l.filter (·.1 ≠ k)
@@ -26,16 +58,25 @@ def findBias (s : ModSt) (name : String) : Option (Bias Float) :=
 
 def modOps (s : ModSt) (ln : Nat) (t : List String) : Option (ModSt × List String) :=
   match t with
-  | "m.new" :: n :: _ => some ({ natoms := nOfTok n, saved := s.saved }, [])
-  | "m.save" :: prefix_ :: _ => some ({ s with saved := (prefix_, s.m) :: s.saved.filter (·.1 != prefix_) }, [])
+  | "m.new" :: n :: _ => some ({ natoms := nOfTok n, saved := s.saved, savedExt := s.savedExt }, [])
+  | "m.save" :: prefix_ :: _ =>
+    some ({ s with saved := (prefix_, s.m) :: s.saved.filter (·.1 != prefix_),
+                   savedExt := (prefix_, s.exts) :: s.savedExt.filter (·.1 != prefix_) }, [])
   | ["m.opt", "it", n] => some ({ s with m := { s.m with clock := { s.m.clock with it := iOfTok n, itRestart := iOfTok n } } }, [])
   | ["m.opt", "tf_same", b] => some ({ s with m := { s.m with tfSame := b != "0" } }, [])
   | ["m.opt", "tfloop", b] => some ({ s with m := { s.m with tfLoop := b != "0" } }, [])
+  | ["m.opt", "rng", seed] => some ({ s with rng := UInt64.ofNat (nOfTok seed) }, [])
   | "m.opt" :: _ => some (s, [])
   | "m.loadhex" :: _ => some ({ s with clockKnown := false }, [])
   | "m.load" :: prefix_ :: _ =>
     match s.saved.lookup prefix_ with
-    | some sv => some ({ s with m := sysLoad s.m sv }, [out ln "it" (iTok sv.clock.it)])
+    | some sv =>
+      -- extended coordinates: the state carries the value and velocity reported at the last step
+      let exts := s.exts.map fun e =>
+        match ((s.savedExt.lookup prefix_).getD []).find? (·.name == e.name) with
+        | some o => { e with s := { e.s with set := true, xExt := o.xrep, vExt := o.vrep, afterRestart := true } }
+        | none => e
+      some ({ s with m := sysLoad s.m sv, exts := exts }, [out ln "it" (iTok sv.clock.it)])
     | none => some ({ s with clockKnown := false }, [])
   | ["m.pos", a, _x, _y, z] => some ({ s with posz := setAssoc s.posz (nOfTok a) (fOfTok z) }, [])
   | ["m.tf", a, _x, _y, z] => some ({ s with tfz := setAssoc s.tfz (nOfTok a) (fOfTok z) }, [])
@@ -43,9 +84,26 @@ def modOps (s : ModSt) (ln : Nat) (t : List String) : Option (ModSt × List Stri
     let inp : StepIn Float := { z := fun a => (s.posz.lookup a).getD 0.0, tfz := fun a => (s.tfz.lookup a).getD 0.0,
                                 cont := r == ["cont"] }
     let (m', o) := modStep s.m inp
-    let s' := { s with m := m' }
+    -- extended-Lagrangian variables (their own little machines, same clock)
+    let (exts', rng', eext) := s.exts.foldl (fun (acc : List ExtObj × UInt64 × Float) (e : ExtObj) =>
+        let (es, rng, en) := acc
+        let x := inp.z e.atom
+        let s1 := extPrepare e.p m'.clock true e.s x
+        let w := e.p.width
+        let fb := (-0.5 * e.kb / (w * w) * dist2SGrad e.p.per s1.xExt e.cb) * 1.0
+        let eb := 0.5 * e.kb / (w * w) * dist2S e.p.per s1.xExt e.cb
+        -- walls act on the actual value (bypass), upper wall only, relative constant 1
+        let dW := let g := dist2SGrad none x e.uw; if e.kw == 0.0 then 0.0 else (if g > 0.0 then 0.5 * g else 0.0)
+        let fw := (-e.kw * 1.0 / (w * w) * dW) * 1.0
+        let ew := 0.5 * e.kw * 1.0 / (w * w) * dW * dW
+        let (rng1, rnd) := if e.p.langevin then randGaussian rng else (rng, 0.0)
+        let s2 := extEnd m'.clock (extIntegrate e.p s1 x fb fw rnd) x
+        (es ++ [{ e with s := s2, xrep := s1.xExt, vrep := s1.vExt, ebias := eb + ew }], rng1, en + (eb + ew) + (s2.ep + s2.ek)))
+      ([], s.rng, 0.0)
+    let s' := { s with m := m', exts := exts', rng := rng' }
+    let energy := if s.exts.isEmpty then o.energy else o.energy + eext
     let outs := (if s.clockKnown then [out ln "it" (iTok m'.clock.it)] else []) ++
-                (if s.modelled && s.clockKnown then [out ln "energy" (fTok o.energy)] else [])
+                (if s.modelled && s.clockKnown then [out ln "energy" (fTok energy)] else [])
     some (s', outs)
   | "m.forces" :: _ =>
     if !(s.modelled && s.clockKnown) then some (s, []) else
@@ -164,6 +222,37 @@ def modOps (s : ModSt) (ln : Nat) (t : List String) : Option (ModSt × List Stri
                 out ln "work" (fTok st.accWork), out ln "nti" (iTok st.tiOut.length),
                 out ln "ti" (fsTok (st.tiOut.flatMap fun x => [x.1, x.2]))])
     | _ => some (s, [])
+  -- M.ext <name> <atom> k=.. mass=.. dt=.. gamma=.. sigma=.. langevin=0/1 width=.. rl=.. ru=.. haslo=0/1 hasup=0/1 kb=.. cb=.. kw=.. uw=.. tsf=..
+  | "M.ext" :: name :: atom :: kv =>
+    let get (k : String) : Option String := (kv.find? (fun t => t.startsWith (k ++ "="))).map (fun t => (t.drop (k.length + 1)).toString)
+    let getF (k : String) (d : Float) : Float := ((get k).map fOfTok).getD d
+    let getI (k : String) (d : Int) : Int := ((get k).map iOfTok).getD d
+    let tsfv : Int := getI "tsf" 1
+    let p : ExtParams Float := {
+      k := getF "k" 1.0
+      mass := getF "mass" 1.0
+      dt := getF "dt" 1.0
+      tsf := tsfv
+      gamma := getF "gamma" 0.0
+      sigma := getF "sigma" 0.0
+      langevin := getI "langevin" 0 != 0
+      per := none
+      wrapC := 0.0
+      width := getF "width" 1.0
+      reflLower := if getI "haslo" 0 != 0 then some (getF "rl" 0.0) else none
+      reflUpper := if getI "hasup" 0 != 0 then some (getF "ru" 0.0) else none
+      subtract := getI "sub" 0 != 0 }
+    let st : ExtState Float := { xExt := 0.0, vExt := 0.0, prevX := 0.0, prevV := 0.0, xOld := 0.0, ek := 0.0, ep := 0.0,
+                                 fr := 0.0, ftReported := 0.0, fAtoms := 0.0 }
+    let e : ExtObj := { name := name, atom := nOfTok atom, p := p, s := st, kb := getF "kb" 0.0, cb := getF "cb" 0.0,
+                        kw := getF "kw" 0.0, uw := getF "uw" 0.0 }
+    some ({ s with exts := s.exts ++ [e], modelled := true }, [])
+  | ["e.dump", name] =>
+    match s.exts.find? (·.name == name) with
+    | some e => some (s, [out ln "xr" (fTok e.xrep), out ln "vr" (fTok e.vrep), out ln "ek" (fTok e.s.ek), out ln "ep" (fTok e.s.ep),
+                          out ln "fr" (fTok e.s.fr), out ln "fa" (fTok e.s.fAtoms), out ln "xnext" (fTok e.s.xExt),
+                          out ln "vnext" (fTok e.s.vExt), out ln "err" (bTok e.s.err)])
+    | none => some (s, [])
   | ["M.tsf", name, n] => some ({ s with m := { s.m with tsf := (name, iOfTok n) :: s.m.tsf } }, [])
   | ["h.dump", name] =>
     match findBias s name with
